@@ -650,32 +650,69 @@ func vBTighten(r *vrng, b *vBCase, rt *vRow) string {
 	case 5:
 		// payload limit: choose the length of the recipient's encrypted
 		// data such that findPath's own estimate lands on the limit -1/0/+1
-		// what findPath itself added up: final-hop estimate + the payload
-		// of the from-node of every path edge but the first
-		est := int(rt.LastSize)
-		for i, e := range rt.Path {
-			if i == 0 {
-				continue
-			}
-			sz := -1
-			for _, bsz := range rt.BSizes {
-				if int(bsz[0]) == e.From && int(bsz[1]) == e.To {
-					sz = int(bsz[2])
-				}
-			}
-			if sz < 0 {
-				sz = int(rt.Sizes[i-1])
-			}
-			est += sz
-		}
+		// what findPath itself adds up for this route: final-hop estimate +
+		// the payload of the from-node of every path edge but the first.
+		// Only the final-hop estimate and the dummy edge depend on the
+		// recipient's encrypted data; both are re-measured with the real
+		// size functions for a candidate length (binary search, monotone).
 		li := len(p.CtLens) - 1
-		grow := int(sphinx.MaxRoutingPayloadSize) + int(d) - 1 - est
-		if len(p.Hops) > 0 {
-			// the dummy hop repeats the recipient's data
-			grow /= 2
+		pidx := -1
+		for i, q := range b.pays {
+			if q == p {
+				pidx = i
+			}
 		}
-		// crossing 253 bytes adds 2 bytes to a length prefix
-		nl := p.CtLens[li] + grow - []int{0, 0, 2, 4, 6, 20}[r.intn(6)]
+		estFor := func(nl int) int {
+			nb := b.clone()
+			nb.pays[pidx].CtLens[li] = nl
+			var bps []*BlindedPayment
+			for pi, q := range nb.pays {
+				bps = append(bps, nb.payment(pi, q))
+			}
+			ps, err := NewBlindedPaymentPathSet(bps)
+			if err != nil {
+				return -1
+			}
+			hints, err := ps.ToRouteHints()
+			if err != nil {
+				return -1
+			}
+			ls, _ := lastHopPayloadSize(
+				&RestrictParams{BlindedPaymentPathSet: ps},
+				int32(c.height)+int32(ps.FinalCLTVDelta()),
+				lnwire.MilliSatoshi(c.amt))
+			est := int(ls)
+			for i, e := range rt.Path {
+				if i == 0 {
+					continue
+				}
+				sz := -1
+				for _, ae := range hints[c.g.nodes[e.From]] {
+					if c.g.idx[ae.EdgePolicy().ToNodePubKey()] == e.To {
+						sz = int(ae.IntermediatePayloadSize(0, 0, 0))
+					}
+				}
+				if sz < 0 {
+					sz = int(rt.Sizes[i-1])
+				}
+				est += sz
+			}
+			return est
+		}
+		want := int(sphinx.MaxRoutingPayloadSize) + int(d) - 1
+		lo, hi := 2, 1300
+		for lo < hi {
+			mid := (lo + hi + 1) / 2
+			if e := estFor(mid); e >= 0 && e <= want {
+				lo = mid
+			} else {
+				hi = mid - 1
+			}
+		}
+		nl := lo
+		if pidx < 0 || estFor(nl) < 0 || b.session {
+			return "bpayload-skip"
+		}
 		if nl < 2 || nl > 1300 {
 			return "bpayload-skip"
 		}
